@@ -1,5 +1,5 @@
 (* C05 - Values a column cannot represent are rejected, never silently altered. *)
-From Verif Require Import Conv Conv_proofs SerializerTables SerTablesSpec DictBuilder UnionBuilder.
+From Verif Require Import Conv Conv_proofs SerializerTables SerTablesSpec DictBuilder UnionBuilder Builder_proofs Refine_proofs.
 
 (* Full-strength statement (kept visible): on every serialization cell of the run the C01 oracle
    is evaluated inside Coq (accepted => the arrays decode to exactly interp(value); a value outside
@@ -87,6 +87,30 @@ Proof. intros v u H. destruct v; try contradiction; reflexivity. Qed.
 Theorem C05_dictionary_null_non_nullable : forall k vk, dict_push VNone (dict_new k vk false) = Err.
 Proof. reflexivity. Qed.
 
+(* ---- the container level, on the builder model (Boolean, integers, floats, temporal integers, strings, binary, lists, structs; any
+   nesting, every presentation): a value that the documented mapping of the column does not contain is never accepted - whatever it is
+   (a number out of range three levels down, a null under a non-nullable field, a missing or duplicated field of an inner record, a
+   wrong kind of value) and whatever the state of the builder; and an accepted value appends exactly what it denotes and changes no
+   earlier row (C01_push_refines).  This is the contrapositive reading of the refinement theorem: nothing is wrapped, truncated,
+   defaulted or dropped silently. *)
+Theorem C05_unrepresentable_is_rejected : forall v f b lvs, shape f b -> WfB b -> content b = Some lvs ->
+  (forall lv, interp f v <> IOk lv) -> forall b', push v b <> Ok b'.
+Proof.
+  intros v f b lvs Hs Hw Hc Hno b' Hp. destruct (push_sound v f b b' lvs Hs Hw Hc Hp) as (lv & Hi & _). exact (Hno lv Hi).
+Qed.
+Theorem C05_accepted_is_exact : forall v f b b' lvs, shape f b -> WfB b -> content b = Some lvs -> push v b = Ok b' ->
+  exists lv, interp f v = IOk lv /\ content b' = Some (lvs ++ [lv]).
+Proof.
+  intros v f b b' lvs Hs Hw Hc Hp. destruct (push_sound v f b b' lvs Hs Hw Hc Hp) as (lv & Hi & Hc' & _). exists lv. split; assumption.
+Qed.
+
+(* non-vacuity: a u16 above i8::MAX two levels down (inside a list inside a struct) is outside the mapping *)
+Example C05_nested_out_of_range :
+  let f := mkField (b "r") (DStruct [mkField (b "l") (DList KLargeList (mkField (b "element") (DPrim (PInt I8)) false)) false]) false in
+  forall lv, interp f (VStruct [(b "l", VSeq [VInt U16 1; VInt U16 200])]) <> IOk lv.
+Proof. intros f lv. vm_compute. discriminate. Qed.
+
+Print Assumptions C05_unrepresentable_is_rejected.
 Print Assumptions C05_ser_int_exact.
 Print Assumptions C05_de_exact.
 Print Assumptions C05_union_unknown_variant.
